@@ -9,7 +9,7 @@ def _chain_filter(clauses=None, completeness=False):
         cl = d.get("class", "")
         if "harness/model error" in cl:
             return True
-        if cl == "chain.validat":
+        if cl.startswith("chain.validat"):
             return pid == "C04"
         if completeness:
             return "model-allows-go-denies" in cl
@@ -57,6 +57,7 @@ _CHAIN_NOTE = ("Trusted: Lean kernel; Model/Chain.lean renders invocation.go/pro
 
 PROPS = {
     "C15": dict(
+        tie=["Ucan.Props.Tie.Command"],
         props_module="Ucan.Props.C15",
         streams=["command"],
         technique="Lean 4 proof (induction over byte lists) of fast-path Covers ⇔ segment prefix, partial-order laws, parser grammar, Join; model tied to the code by an exhaustive small-domain differential run",
@@ -65,6 +66,7 @@ PROPS = {
         assumptions=["strings.ToLower is a parameter of the model: every theorem holds for any lower-casing function; the driver is given Go's own strings.ToLower(s) with each case"],
     ),
     "C13": dict(
+        tie=["Ucan.Props.Tie.Glob"],
         props_module="Ucan.Props.C13",
         streams=["glob"],
         technique="Lean 4 proof that the single-backtrack-point matcher decides the inductively defined glob language for every pattern and string; model tied to the code by an exhaustive small-alphabet differential run through policy.Like/Match",
@@ -73,6 +75,7 @@ PROPS = {
         assumptions=["like on a non-string value is false (part of the C11 model)"],
     ),
     "C12": dict(
+        tie=["Ucan.Props.Tie.Selector"],
         props_module="Ucan.Props.C12",
         streams=["selector"],
         technique="Lean 4 proof that the Go-shaped resolve loop equals the fold of per-kind specification steps (Python index/slice rules proved with omega); model tied to the code by an exhaustive short-selector × value differential run through selector.Parse + Select",
@@ -89,6 +92,7 @@ PROPS = {
         assumptions=["integers in policies and data fit int64 (otherwise must.Int/DeepEqual panic: C09)", "or [] is true, as the UCAN specification and the in-tree tests require"],
     ),
     "C01": dict(
+        tie=["Ucan.Props.Tie.ChainProofs"],
         props_module="Ucan.Props.C01",
         streams=["chain"],
         filter=_chain_filter(clauses=["principal", "load"]),
@@ -97,6 +101,7 @@ PROPS = {
         level_note=_CHAIN_NOTE,
     ),
     "C02": dict(
+        tie=["Ucan.Props.Tie.Command", "Ucan.Props.Tie.ChainProofs"],
         props_module="Ucan.Props.C02",
         streams=["chain"],
         filter=_chain_filter(clauses=["command"]),
@@ -113,6 +118,7 @@ PROPS = {
         level_note=_CHAIN_NOTE,
     ),
     "C04": dict(
+        tie=["Ucan.Props.Tie.ChainTime"],
         props_module="Ucan.Props.C04",
         streams=["chain"],
         filter=_chain_filter(clauses=["time"]),
@@ -121,6 +127,7 @@ PROPS = {
         level_note=_CHAIN_NOTE + " Wall-clock reads and time.Time's monotonic-clock handling are not modelled; bounds in chain scenarios sit two hours from now.",
     ),
     "C05": dict(
+        tie=["Ucan.Props.Tie.ChainProofs", "Ucan.Props.Tie.ChainTime"],
         props_module="Ucan.Props.C05",
         streams=["chain"],
         filter=_chain_filter(completeness=True),
@@ -203,6 +210,7 @@ PROPS = {
         assumptions=["the Go runtime (stack growth, allocator) and the dependencies' decoders are outside the model; for them the check observes sampled inputs only"],
     ),
     "C19": dict(
+        tie=["Ucan.Props.Tie.Meta"],
         props_module="Ucan.Props.C19",
         streams=["meta"],
         level="proof",
